@@ -158,8 +158,15 @@ def run_harness(binary, scenarios, work, seed, nproc=None, test="TestDrive", ext
     base = work.fresh(tag)
     os.makedirs(base)
     shards = [[] for _ in range(nproc)]
+    groups = {}
     for i, s in enumerate(scenarios):
-        shards[i % nproc].append(s)
+        g = s.get("grp") or None
+        if g is None:
+            shards[i % nproc].append(s)
+        else:  # members of one group stay together and in order
+            if g not in groups:
+                groups[g] = len(groups) % nproc
+            shards[groups[g]].append(s)
     jobs = []
     for i, sh in enumerate(shards):
         sf = os.path.join(base, "scn%d.ndjson" % i)
